@@ -190,6 +190,7 @@ def run(chk, repo, tier):
     o2(chk, repo, models)
     o2b(chk, repo, models)
     o5(chk, repo, models)
+    o6(chk, repo, models)
     keys_rule(chk, repo)
 
 
@@ -362,3 +363,70 @@ def keys_rule(chk, repo, rule="O4", only_keys=None):
             chk.ok(rule, key, w, "read by %s" % sorted(readers[k])[:4])
         else:
             chk.violation(rule, key, w, "surface key '%s' is read by %s but is not copied into the aero surface dictionary of a multi-section surface: the option silently falls back to its default there" % (k, sorted(readers[k])[:4]))
+
+
+# --------------------------------------------------------------------------- O6
+def o6(chk, repo, models):
+    """A total that is initialised before the surface loop and used after it is
+    accumulated in the loop, not overwritten (else only the last surface counts)."""
+    chk.rule("O6", "a local or attribute that is initialised before a loop over the surface list, modified inside it and read after it is modified only by accumulation (x += e, x = x + e, element-wise +=) or under an explicit first-iteration guard: a plain overwrite would make the result the last surface's contribution only", min_decided=5)
+    for m in models:
+        c = m.cls
+        if c.name in POSTPROCESSING:
+            continue
+        for mname, f in c.methods.items():
+            if mname in ("setup", "initialize", "__init__"):
+                continue
+            for loop in _ast.walk(f.node):
+                if not isinstance(loop, _ast.For):
+                    continue
+                it = _unparse(loop.iter)
+                if "surfaces" not in it and "sections" not in it:
+                    continue
+                end = getattr(loop, "end_lineno", loop.lineno)
+                before, after_reads = set(), set()
+                for n in _ast.walk(f.node):
+                    if isinstance(n, _ast.Assign) and n.lineno < loop.lineno:
+                        for t in n.targets:
+                            if isinstance(t, _ast.Name):
+                                before.add(t.id)
+                    if isinstance(n, _ast.Name) and isinstance(n.ctx, _ast.Load) and n.lineno > end:
+                        after_reads.add(n.id)
+                cand = before & after_reads
+                if not cand:
+                    continue
+                acc = _acc_updates(loop)
+
+                def visit(stmts, guarded):
+                    for st in stmts:
+                        if isinstance(st, _ast.If):
+                            t = _unparse(st.test).replace(" ", "")
+                            g = guarded or t.endswith("==0") or t.startswith("0==")
+                            yield from visit(st.body, g)
+                            yield from visit(st.orelse, guarded)
+                        elif isinstance(st, (_ast.For, _ast.While, _ast.With)):
+                            yield from visit(st.body, guarded)
+                        else:
+                            yield st, guarded
+
+                mods = {}
+                for st, guarded in visit(loop.body, False):
+                    if isinstance(st, _ast.Assign):
+                        for t in st.targets:
+                            for tt in (t.elts if isinstance(t, (_ast.Tuple, _ast.List)) else [t]):
+                                if isinstance(tt, _ast.Name) and tt.id in cand:
+                                    mods.setdefault(tt.id, []).append((st, guarded, "="))
+                    elif isinstance(st, _ast.AugAssign) and isinstance(st.target, _ast.Name) and st.target.id in cand:
+                        mods.setdefault(st.target.id, []).append((st, guarded, type(st.op).__name__))
+                for nm, lst in sorted(mods.items()):
+                    key = "%s.%s: '%s' across the loop at line %d" % (c.name, mname, nm, loop.lineno)
+                    def self_ref(st_):
+                        # the new value is built from the old one (x = f(x, ...)): an accumulation in the wide sense
+                        return isinstance(st_, _ast.Assign) and any(isinstance(x_, _ast.Name) and x_.id == nm for x_ in _ast.walk(st_.value))
+
+                    bad = [(st, op) for st, guarded, op in lst if not guarded and st not in acc.get(nm, []) and not (op in ("Add", "Sub")) and not self_ref(st)]
+                    if bad:
+                        st, op = bad[0]
+                        chk.violation("O6", key, where(c, st.lineno), "'%s' is initialised before the loop over the surfaces and used after it, but inside the loop it is overwritten by '%s' instead of being accumulated: only the last surface contributes" % (nm, _unparse(st)[:80]))
+                    else:
+                        chk.ok("O6", key, where(c, loop.lineno), "accumulated")
